@@ -35,11 +35,11 @@ var c10Atoms = append(append([]ora.Atom{}, c09Atoms...),
 	}},
 )
 
-var c10Alphabet = []string{"FONT", "JS1", "NOS", "PIC", "PICf", "LAZY", "YT", "TW", "VIDs", "TBLd", "TBLi", "ATTRS", "FIGl", "IMGrel", "PGR", "SCH", "HIDs", "BR"}
+var c10Alphabet = []string{"FONT", "JS1", "NOS", "PIC", "PICf", "LAZY", "LAZYs", "YT", "TW", "VIDs", "TBLd", "TBLi", "ATTRS", "FIGl", "IMGrel", "PGR", "SCH", "HIDs", "BR"}
 
 const c10Fetch = "http://example.com/fetched/page-2.html"
 
-var c10OptNames = []string{"nil", "url", "url-pagenumber", "all-flags", "other-url"}
+var c10OptNames = []string{"nil", "url", "url-pagenumber", "all-flags", "other-url", "no-url", "no-url-flags"}
 
 func c10Opts(name string) *distiller.Options {
 	u, _ := nurl.Parse("http://caller.example/original/page-2.html?x=1#frag")
@@ -52,6 +52,10 @@ func c10Opts(name string) *distiller.Options {
 		return &distiller.Options{OriginalURL: u, PaginationAlgo: distiller.PageNumber}
 	case "all-flags":
 		return &distiller.Options{OriginalURL: u, LogFlags: distiller.LogEverything}
+	case "no-url":
+		return &distiller.Options{}
+	case "no-url-flags":
+		return &distiller.Options{LogFlags: distiller.LogEverything, PaginationAlgo: distiller.PageNumber}
 	case "other-url":
 		return &distiller.Options{OriginalURL: &nurl.URL{Scheme: "http", Host: "caller.example", Path: "/a b/", RawQuery: "q=1", User: nurl.UserPassword("u", "p")}, SkipPagination: true}
 	}
@@ -82,7 +86,7 @@ func c10Enumerate(tier string, emit func(*eng.Case)) {
 				if tier != "thorough" && edits == 0 && len(h) < 2 {
 					continue
 				}
-				if tier != "thorough" && len(h) == 3 && !(on == "url" || on == "url-pagenumber") {
+				if tier != "thorough" && len(h) == 3 && !(on == "url" || on == "url-pagenumber" || on == "no-url" || on == "nil") {
 					continue
 				}
 				var hs []string
@@ -226,7 +230,7 @@ func init() {
 	eng.Register(&eng.Prop{
 		ID:        "C10",
 		DesignRef: "§5 C10",
-		Rule: "documents = S1 with <= 1 (quick) / <= 2 (thorough) insertions over 18 atoms in which the library rewrites nodes (font, javascript: anchor, noscript image, picture, lazy image, embeds, video, tables, attribute-laden elements, relative links, pager, schema.org item); x options {nil, URL, URL+PageNumber, all log flags, URL with userinfo/escaped path + SkipPagination} x every history of <= 3 calls over entry points {Apply(document), Apply(attached sub-element), ApplyForURL via an in-process RoundTripper} reusing one tree and one *Options. " +
+		Rule: "documents = S1 with <= 1 (quick) / <= 2 (thorough) insertions over 19 atoms in which the library rewrites nodes (font, javascript: anchor, noscript image, picture, lazy images (with and without a placeholder src that gets overwritten), embeds, video, tables, attribute-laden elements, relative links, pager, schema.org item); x options {nil, URL, URL+PageNumber, all log flags, URL with userinfo/escaped path + SkipPagination, non-nil options without URL (plain and with flags)} x every history of <= 3 calls over entry points {Apply(document), Apply(attached sub-element), ApplyForURL via an in-process RoundTripper} reusing one tree and one *Options. " +
 			"Oracle after every call: structural snapshot of the whole tree (types, names, atoms, attributes, parent/child/sibling links) unchanged; no hooked write (field assignment or DOM mutator) touched a caller-owned node; Options and *OriginalURL unchanged (including the pointer); repeated calls give the same result; ApplyForURL reports the fetched address. Non-trivial = history of >= 2 calls or non-nil options.",
 		Enumerate: c10Enumerate,
 		Check:     c10Check,
